@@ -3,6 +3,7 @@ use mmap_append::MmapAppend;
 use pocket_types::Event;
 use std::fs::{File, OpenOptions};
 use std::mem;
+use std::os::unix::fs::FileExt;
 use std::path::Path;
 use std::sync::atomic::{AtomicUsize, Ordering};
 
@@ -46,10 +47,21 @@ impl EventStore {
 
         // Determine if we just created it
         // (not long enough for the required end offset)
-        let new = len < mem::size_of::<usize>();
+        let mut new = len < mem::size_of::<usize>();
+
+        // A process may have died after sizing the file but before the end offset
+        // was initialised. The end offset then reads as zero, which is never valid
+        // (it counts the header itself); such a file holds nothing and is new too.
+        if !new {
+            let mut header = [0_u8; mem::size_of::<usize>()];
+            event_map_file.read_exact_at(&mut header, 0)?;
+            if usize::from_le_bytes(header) < mem::size_of::<usize>() {
+                new = true;
+            }
+        }
 
         // If brand new:
-        if new {
+        if new && len < EVENT_MAP_CHUNK {
             // grow to initial size
             len = EVENT_MAP_CHUNK;
             event_map_file.set_len(EVENT_MAP_CHUNK as u64)?;
